@@ -127,6 +127,13 @@ pub struct RejCase {
     pub rej: TxSpec,
     pub t2: TxSpec,
     pub layer: u8,
+    /// how the rejected transaction is submitted: 0 transact, 1 preverify_transaction, 2 transact_commit
+    #[serde(default)]
+    pub via: u8,
+    /// T2 is replaced by a call (from another sender) to a contract that touches every address the rejected
+    /// transaction named with warm/cold-priced instructions, so that any leaked journal entry changes its gas
+    #[serde(default)]
+    pub probe: bool,
 }
 
 enum HOp {
@@ -251,6 +258,34 @@ fn state_db(world: &r::World, spec: SpecId, bundle: bool) -> State<ModelDB> {
 }
 
 pub fn c02b_case(c: &RejCase) -> CaseResult {
+    let probe_slot = pool::IDX_CONTRACT0 + 5;
+    let mut c = c.clone();
+    if c.probe {
+        // BALANCE / EXTCODESIZE / EXTCODEHASH of the four EOAs, the coinbase, the rejected transaction's target and
+        // access-list addresses; SLOAD of a few own slots; then STOP
+        let mut code = vec![];
+        let mut addrs: Vec<u8> = (0..pool::N_EOA).collect();
+        addrs.push(pool::IDX_COINBASE);
+        addrs.extend(c.rej.to.iter().copied());
+        addrs.extend(c.rej.access_list.iter().map(|(a, _)| *a));
+        addrs.extend(c.rej.auths.iter().filter_map(|a| a.authority));
+        for a in addrs {
+            for op in [0x31u8, 0x3b, 0x3f] {
+                code.push(0x73);
+                code.extend_from_slice(&pool::addr(a));
+                code.push(op);
+                code.push(0x50);
+            }
+        }
+        for k in 0..3u8 {
+            code.extend_from_slice(&[0x60, k, 0x54, 0x50]);
+        }
+        code.push(0x00);
+        c.world.accounts.retain(|a| a.addr != probe_slot);
+        c.world.accounts.push(AccountSpec { addr: probe_slot, balance: r::U256::zero(), nonce: 1, code: Code::Raw(code), storage: vec![] });
+        c.t2 = TxSpec::call((c.rej.caller + 1) % pool::N_EOA, Some(probe_slot), 1_000_000);
+    }
+    let c = &c;
     let spec = spec_id(c.world.spec);
     let Some(fork) = c.world.fork() else { return Ok(Outcome::trivial()) };
     let (pre, block, t1) = c.world.build();
@@ -269,7 +304,12 @@ pub fn c02b_case(c: &RejCase) -> CaseResult {
         // code and nonce is fully in memory): see DESIGN.md C15
         return Ok(Outcome::trivial().label("excluded:storage-only-account-under-State"));
     }
-    let with = [HOp::Commit(t1.clone()), HOp::Try(rej.clone()), HOp::Commit(t2.clone())];
+    let rejected = match c.via % 3 {
+        0 => HOp::Try(rej.clone()),
+        1 => HOp::Preverify(rej.clone()),
+        _ => HOp::Commit(rej.clone()),
+    };
+    let with = [HOp::Commit(t1.clone()), rejected, HOp::Commit(t2.clone())];
     let without = [HOp::Commit(t1.clone()), HOp::Commit(t2.clone())];
     macro_rules! go {
         ($mk:expr, $name:expr) => {{
@@ -296,11 +336,18 @@ pub fn c02b_case(c: &RejCase) -> CaseResult {
         1 => go!(state_db(&pre, spec, true), "State"),
         _ => go!(state_db(&pre, spec, false), "State-no-bundle"),
     }
-    Ok(Outcome::new(true).label(match c.layer % 3 {
-        0 => "layer:CacheDB",
-        1 => "layer:State+bundle",
-        _ => "layer:State",
-    }))
+    Ok(Outcome::new(true)
+        .label(match c.layer % 3 {
+            0 => "layer:CacheDB",
+            1 => "layer:State+bundle",
+            _ => "layer:State",
+        })
+        .label_if(c.probe, "probe-transaction-follows")
+        .label(match c.via % 3 {
+            0 => "via:transact",
+            1 => "via:preverify_transaction",
+            _ => "via:transact_commit",
+        }))
 }
 
 pub fn c02(ctx: &mut Ctx) {
@@ -325,12 +372,12 @@ pub fn c02(ctx: &mut Ctx) {
     bad.invalid_pct = 90;
     ctx.run_cases(
         "rejection-has-no-effect",
-        "histories [T1, R, T2] on one Evm over CacheDB<ModelDB> / State<ModelDB> (with and without bundle) versus [T1, T2]: R (rejected by the reference's validate) must return Err, database reads of every pool address/slot right after R equal those before it, T2's result and the final reads are identical to the history without R; non-trivial = every evaluated history whose middle transaction is invalid",
-        || (world_case(&base), world::tx_spec(&bad), world::tx_spec(&base), 0u8..3).prop_map(|(world, rej, t2, layer)| RejCase { world, rej, t2, layer }),
+        "histories [T1, R, T2] on one Evm over CacheDB<ModelDB> / State<ModelDB> (with and without bundle) versus [T1, T2]: R (rejected by the reference's validate, submitted through transact, preverify_transaction or transact_commit) must return Err, database reads of every pool address/slot right after R equal those before it, T2's result and the final reads are identical to the history without R; non-trivial = every evaluated history whose middle transaction is invalid",
+        || (world_case(&base), world::tx_spec(&bad), world::tx_spec(&base), 0u8..3, 0u8..3, prop::bool::weighted(0.4)).prop_map(|(world, rej, t2, layer, via, probe)| RejCase { world, rej, t2, layer, via, probe }),
         n2,
         c02b_case,
     );
-    ctx.expect_labels("rejection-has-no-effect", &["layer:CacheDB", "layer:State+bundle", "layer:State"]);
+    ctx.expect_labels("rejection-has-no-effect", &["layer:CacheDB", "layer:State+bundle", "layer:State", "via:transact", "via:preverify_transaction", "via:transact_commit"]);
     ctx.assumptions.push("revm's TxEnv carries no transaction type: a 1559-shaped transaction before London and a 2930 transaction with an empty access list before Berlin are not representable and are generated as legacy".into());
     ctx.assumptions.push("sender nonce 2^64-1 is outside the domain (unreachable by EIP-2681)".into());
 }
